@@ -128,6 +128,9 @@ EXPECTED_SITES = [
     "backend/decrypt.rs:get_file:read_encrypted_full:explicit",
     "backend/decrypt.rs:stream_all:stream_list:listed",
     "backend/decrypt.rs:stream_list:get_file:explicit",
+    # DryRunBackend::read_encrypted_full forwards to the wrapped backend's method of the same name
+    # (since the id-verification fix of C04); not a reader of its own
+    "backend/dry_run.rs:read_encrypted_full:read_encrypted_full:explicit",
     "commands/cat.rs:cat_file:read_encrypted_full:listed",
     "commands/prune.rs:find_used_blobs:stream_list:listed",
     "repofile/snapshotfile.rs:fill_missing:stream_list:explicit",
